@@ -250,8 +250,9 @@ static std::string render_lp(const LP &m, long style) {
 		if (r.sense == 'R') { s += " " + r.name + ":" + expr() + " >= " + lit(r.rhs, style) + "\n"; s += " " + r.name + "_u:" + expr() + " <= " + lit(Q(r.rhs + r.range), style) + "\n"; }
 		else s += " " + r.name + ":" + expr() + (r.sense == 'L' ? " <= " : r.sense == 'G' ? " >= " : " = ") + lit(r.rhs, style) + "\n"; }
 	s += up ? "BOUNDS\n" : "Bounds\n";
-	for (auto &c : m.cols) { if (!c.lo.fin() && !c.up.fin()) s += " " + c.name + " free\n"; else if (c.lo.fin() && c.up.fin() && c.lo.v == c.up.v) s += " " + c.name + " = " + lit(c.lo.v, style) + "\n";
-		else { bool deflo = c.lo.fin() && c.lo.v == 0, defup = !c.up.fin() && c.up.inf > 0; if (deflo && defup) continue; s += " " + (c.lo.fin() ? lit(c.lo.v, style) : std::string("-inf")) + " <= " + c.name + " <= " + (c.up.fin() ? lit(c.up.v, style) : std::string("+inf")) + "\n"; } }
+	for (size_t jj = 0; jj < m.cols.size(); jj++) { const MCol &c = m.cols[jj]; bool marked_int = style % 4 == 1 && (jj + (size_t)(style / 4)) % 3 == 0;
+		if (!c.lo.fin() && !c.up.fin()) s += " " + c.name + " free\n"; else if (c.lo.fin() && c.up.fin() && c.lo.v == c.up.v) s += " " + c.name + " = " + lit(c.lo.v, style) + "\n";
+		else { bool deflo = c.lo.fin() && c.lo.v == 0, defup = !c.up.fin() && c.up.inf > 0; if (deflo && defup && !(marked_int && style % 8 == 1)) continue;   /* an integer column without bounds would be read as binary: say [0,+inf) explicitly */ s += " " + (c.lo.fin() ? lit(c.lo.v, style) : std::string("-inf")) + " <= " + c.name + " <= " + (c.up.fin() ? lit(c.up.v, style) : std::string("+inf")) + "\n"; } }
 	if (style % 4 == 1 && !m.cols.empty()) {   // an integer section: only files can mark columns integer
 		std::string sec; for (size_t j = 0; j < m.cols.size(); j++) if ((j + (size_t)(style / 4)) % 3 == 0) sec += " " + m.cols[j].name;
 		if (!sec.empty()) s += std::string(style % 8 == 1 ? "Integer\n" : "General\n") + sec + "\n"; }
@@ -276,7 +277,9 @@ static std::string render_mps(const LP &m, long style) {
 	bool anyr = false; for (auto &r : m.rows) if (r.sense == 'R') anyr = true;
 	if (anyr) { s += "RANGES\n"; for (auto &r : m.rows) if (r.sense == 'R') s += " RNG " + r.name + " " + lit(r.range, style) + "\n"; }
 	s += "BOUNDS\n";
-	for (auto &c : m.cols) { if (!c.lo.fin() && !c.up.fin()) s += " FR BND " + c.name + "\n"; else if (c.lo.fin() && c.up.fin() && c.lo.v == c.up.v) s += " FX BND " + c.name + " " + lit(c.lo.v, style) + "\n";
+	for (size_t jj = 0; jj < m.cols.size(); jj++) { const MCol &c = m.cols[jj]; bool marked_int = ints && (jj + (size_t)(style / 4)) % 3 == 0;
+		if (!c.lo.fin() && !c.up.fin()) s += " FR BND " + c.name + "\n"; else if (c.lo.fin() && c.up.fin() && c.lo.v == c.up.v) s += " FX BND " + c.name + " " + lit(c.lo.v, style) + "\n";
+		else if (marked_int && style % 8 == 1 && c.lo.fin() && c.lo.v == 0 && !c.up.fin()) s += " PL BND " + c.name + "\n";   // integer with [0,+inf): without a bound record it would be read as binary
 		else { if (!c.lo.fin()) s += " MI BND " + c.name + "\n"; else if (c.lo.v != 0) s += " LO BND " + c.name + " " + lit(c.lo.v, style) + "\n"; if (c.up.fin()) s += " UP BND " + c.name + " " + lit(c.up.v, style) + "\n"; } }
 	s += "ENDATA\n"; return s;
 }
@@ -358,7 +361,15 @@ void Exec::op_rbasis(Client &c) {
 		if (!d.empty()) violate("C14", "basis-roundtrip", d + " (written " + wc + "|" + wr + ", read " + got.cstat + "|" + got.rstat + ")");
 		else if ([&]() { for (size_t j = 0; j < wc.size(); j++) { const MCol &mc = o->m.cols[j]; if ((wc[j] == '3' && (mc.lo.fin() || mc.up.fin())) || (wc[j] == '2' && !mc.up.fin()) || (wc[j] == '0' && !mc.lo.fin() && mc.up.fin())) return true; } return false; }())
 			probe("c14.skipped_status_without_bound");   // a status left over from before a bound edit names a bound the column does not have: not a valid basis of this problem
-		else { BasisEval a = eval_basis(o->m, wc, wr), b2 = eval_basis(o->m, got.cstat, got.rstat); if (a.counts_ok && b2.counts_ok && !a.singular && !b2.singular && (a.x != b2.x || a.slack != b2.slack)) violate("C14", "basis-roundtrip-solution", "the basis read back has a different basic solution"); else probe("c14.roundtrip_ok"); }
+		else { BasisEval a = eval_basis(o->m, wc, wr), b2 = eval_basis(o->m, got.cstat, got.rstat); if (a.counts_ok && b2.counts_ok && !a.singular && !b2.singular && (a.x != b2.x || a.slack != b2.slack)) violate("C14", "basis-roundtrip-solution", "the basis read back has a different basic solution"); else { probe("c14.roundtrip_ok");
+				// "loading it reproduces the same basic solution": when the basis just loaded from the file is an optimal one, the next solve
+				// has nothing to do but to answer with exactly its basic solution (another optimal vertex means the loaded basis was not used)
+				if (load && a.counts_ok && !a.singular && a.primal_feasible && a.dual_feasible && !o->m.cols.empty() && !o->m.rows.empty()) {
+					int st = 0; int n = (int)o->m.cols.size(); world.cur_model = &o->m; int srv = modn(step, 2) ? mpq_QSopt_primal(o->p, &st) : mpq_QSopt_dual(o->p, &st); world.cur_model = 0; after_lib_call("rbasis:solve");
+					QArr xa(n); if (!srv && st == QS_LP_OPTIMAL && !mpq_QSget_x_array(o->p, xa.p())) { std::vector<Q> xs(n); for (int j = 0; j < n; j++) xs[j] = lib_to_q(xa.at(j));
+						if (xs != a.x) violate("C14", "loaded-basis-not-used", "an optimal basis was read and loaded from its file, but the solve that follows answers with another vertex"); else probe("c14.loaded_basis_reproduced"); }
+					else if (!srv && st != QS_LP_OPTIMAL) violate("C14", "loaded-basis-not-used:status", "an optimal basis was read and loaded from its file, but the solve that follows ends " + status_name(st));
+					o->ever_solved = true; } } }
 	} else if (!have && !damaged && same_problem) violate("C14", "basis-reader-rejects-writer-output", "the basis reader failed on an undamaged file written for the same problem");
 	if (have && !load) { got.origin = "file"; c.bases.push_back(got); if (c.bases.size() > 8) c.bases.erase(c.bases.begin()); }
 	if (have && load) { o->life = o->life == "empty" ? "empty" : "edited"; }
